@@ -16,6 +16,8 @@ EXTRA = {"C01-8": ["C04"], "C02-8": ["C09"], "C03-8": ["C15"], "C04-8": ["C16", 
          "C01-10": ["C04", "C08"], "C02-10": ["C11"], "C04-10": ["C14", "C19"], "C05-10": ["C16"], "C06-10": ["C10"], "C07-10": ["C12"], "C08-10": ["C09", "C20"], "C10-10": ["C02"],
          "C11-10": ["C12", "C10"], "C12-10": ["C05"], "C13-10": ["C07"], "C14-10": ["C18", "C04"], "C15-10": ["C01"], "C16-10": ["C08"], "C17-10": ["C10"], "C18-10": ["C17"],
          "C20-10": ["C06", "C12"],
+         "C02-11": ["C12"], "C03-11": ["C08", "C12"], "C04-11": ["C18"], "C07-11": ["C12"], "C08-11": ["C07", "C14"], "C09-11": ["C12"], "C10-11": ["C08"], "C12-11": ["C03", "C08"],
+         "C13-11": ["C05"], "C14-11": ["C07"], "C16-11": ["C04"], "C17-11": ["C09"], "C19-11": ["C16"], "C20-11": ["C13"],
          "C01-7": ["C02"], "C02-7": ["C15", "C14", "C01"], "C03-7": ["C09"], "C04-7": ["C05", "C07"], "C06-7": ["C16"], "C07-7": ["C14", "C06"], "C08-7": ["C10", "C13"], "C09-7": ["C03", "C17"],
          "C10-7": ["C09", "C03"], "C11-7": ["C10", "C02"], "C12-7": ["C06", "C07"], "C14-7": ["C18", "C19", "C04"], "C15-7": ["C19"], "C17-7": ["C11", "C03"], "C18-7": ["C14"], "C19-7": ["C14", "C18", "C06"],
          "C01-6": ["C02", "C11"], "C02-6": ["C01", "C18"], "C03-6": ["C08", "C16"], "C04-6": ["C19", "C18"], "C05-6": ["C16"], "C06-6": ["C20"], "C07-6": ["C05", "C12"], "C08-6": ["C07", "C10"],
